@@ -1,0 +1,98 @@
+//go:build verif
+// +build verif
+
+package udp
+
+import "sync/atomic"
+
+// Hooks used by the verification harness in /verif (build tag "verif"). With the tag off
+// (verif_off.go) the yield points and events compile to nothing.
+
+// VerifYieldHook, when non-nil, is called at the named yield points of this package:
+//
+//	before-store, after-store, before-enqueue   in conn.Transport (index = request index)
+//	dequeued                                    in conn.Send, after a request was taken from the queue
+//	before-onExit                               in conn.Exit (index = 1 if Exit was given an error, else 0)
+//	before-clean, after-clean                   around conn.rangeAndClean
+//
+// conn is an opaque identity of the connection (usable with the accessors below). The hook
+// may block to force a schedule. It must be set before any client of this package is used.
+var VerifYieldHook func(point string, conn interface{}, index int)
+
+// VerifEventHook, when non-nil, is called while conn.lock is held, immediately before the
+// operation on the table of pending calls takes effect:
+//
+//	store, delete, loadAndDelete   index = request index, present = an entry with that index exists
+//	clean                          index = number of entries failed by this pass of rangeAndClean
+//	clean-done                     rangeAndClean found the table empty and is about to return
+//
+// pending is the number of pending entries before the operation. The hook must not block.
+var VerifEventHook func(kind string, conn interface{}, index int, present bool, pending int)
+
+func verifYield(point string, c *conn, index int) {
+	if h := VerifYieldHook; h != nil {
+		h(point, c, index)
+	}
+}
+
+func verifYieldErr(point string, c *conn, err error) {
+	if h := VerifYieldHook; h != nil {
+		if err != nil {
+			h(point, c, 1)
+		} else {
+			h(point, c, 0)
+		}
+	}
+}
+
+// verifEvent is called with c.lock held.
+func verifEvent(kind string, c *conn, index int) {
+	if h := VerifEventHook; h != nil {
+		_, present := c.results[index]
+		if kind == "clean" || kind == "clean-done" {
+			present = false
+		}
+		h(kind, c, index, present, len(c.results))
+	}
+}
+
+// VerifPendingOf returns the number of pending entries of a connection (read-only).
+func VerifPendingOf(handle interface{}) int {
+	c := handle.(*conn)
+	c.lock.Lock()
+	defer c.lock.Unlock()
+	return len(c.results)
+}
+
+// VerifCounterOf returns the request counter of a connection (read-only).
+func VerifCounterOf(handle interface{}) int32 {
+	return atomic.LoadInt32(&handle.(*conn).counter)
+}
+
+// VerifSetCounter presets the request counter of a connection, as if that many requests
+// had been issued on it (used to reach index wrap-around without issuing them).
+func VerifSetCounter(handle interface{}, counter int32) {
+	atomic.StoreInt32(&handle.(*conn).counter, counter)
+}
+
+// VerifConnCount returns the number of pooled connections (read-only).
+func (trans *Transport) VerifConnCount() int {
+	trans.lock.RLock()
+	defer trans.lock.RUnlock()
+	return len(trans.conns)
+}
+
+// VerifPending returns the number of pending entries over all pooled connections (read-only).
+func (trans *Transport) VerifPending() int {
+	trans.lock.RLock()
+	conns := make([]*conn, 0, len(trans.conns))
+	for _, c := range trans.conns {
+		conns = append(conns, c)
+	}
+	trans.lock.RUnlock()
+	n := 0
+	for _, c := range conns {
+		n += VerifPendingOf(c)
+	}
+	return n
+}
